@@ -192,3 +192,64 @@ pub fn n_fmt() {
     core::mem::forget(d);
     core::mem::forget(p);
 }
+
+/// Prefix handling of the deserialiser in isolation: 0, 2 or 4 arbitrary ASCII characters followed
+/// by 64 fixed hex digits (so the digits fold and only the prefix logic is symbolic). Accepted
+/// exactly when there is no prefix or the prefix is "0x"; never with four extra characters.
+#[cfg_attr(kani, kani::proof)]
+pub fn n_de_prefix() {
+    let p: [u8; 4] = sym::bytes::<4>();
+    sym::assume(p[0] < 0x80 && p[1] < 0x80 && p[2] < 0x80 && p[3] < 0x80);
+    let mut buf = [b'a'; 68];
+    buf[0] = p[0];
+    buf[1] = p[1];
+    buf[2] = p[2];
+    buf[3] = p[3];
+    buf[4] = b'0';
+    buf[5] = b'1';
+    buf[67] = b'F';
+    let k = sym::u8();
+    sym::assume(k <= 2);
+    // concrete slice lengths selected by a symbolic value (a symbolic slice length defeats folding)
+    let s: &[u8] = if k == 0 { &buf[4..] } else if k == 1 { &buf[2..] } else { &buf[..] };
+    let st = unsafe { core::str::from_utf8_unchecked(s) };
+    let got = NodeId::deserialize(StrDe(st));
+    let want = ref_hex32(s);
+    let ok = got.is_ok();
+    vcover!(ok && k == 1, "accepted with 0x prefix");
+    vcover!(ok && k == 0, "accepted without prefix");
+    vcover!(!ok && k == 1, "rejected two-character prefix");
+    vcover!(!ok && k == 2, "rejected four-character prefix");
+    assert!(ok == want.is_some(), "C16: deserialisation accepts exactly 64 hex digits with optional 0x");
+    assert!(k != 2 || !ok, "C16: a repeated or longer prefix is rejected");
+    if let (Ok(id), Some(w)) = (got, want) {
+        assert!(id.raw() == w, "C16: deserialised id has the value the digits denote");
+    }
+}
+
+/// Concrete probe strings (fold completely, so they stay decidable even when a changed
+/// implementation uses string searching that the bounded harnesses above cannot carry):
+/// 64 digits, 0x + 64 digits accepted; repeated prefix, upper-case prefix, leading/trailing blank,
+/// 63 and 65 digits rejected.
+#[cfg_attr(kani, kani::proof)]
+pub fn n_de_probes() {
+    macro_rules! d { () => { "9a5f5064e020de899ddbc5182d8f5a6a630c095d2c42c4cb23e91a3b3280a8b4" }; }
+    let cases: [(&str, bool); 8] = [
+        (d!(), true),
+        (concat!("0x", d!()), true),
+        (concat!("0x0x", d!()), false),
+        (concat!("0X", d!()), false),
+        (concat!(" 0x", d!()), false),
+        (concat!("0x", d!(), " "), false),
+        (concat!(d!(), "a"), false),
+        (concat!("x", d!()), false),
+    ];
+    let mut all = true;
+    let mut i = 0;
+    while i < 8 {
+        let got = NodeId::deserialize(StrDe(cases[i].0)).is_ok();
+        all &= got == cases[i].1;
+        i += 1;
+    }
+    assert!(all, "C16: deserialisation accepts exactly 64 hex digits with optional 0x");
+}
